@@ -3,6 +3,7 @@ Props/C15.lean — C15 "Ogg paging: packets in, same packets out, valid pages".
 Property theorems only; lemmas in Proofs/Ogg*.lean.
 -/
 import MutagenModel.Proofs.OggLimits
+import MutagenModel.Proofs.OggParse
 import MutagenModel.Generated.Consts
 set_option linter.unusedVariables false
 namespace Mutagen.C15
@@ -130,5 +131,21 @@ theorem size_eq_render_length (p : Page) (b : Bytes) (h : p.render = .ok b) : b.
 example : (fromPackets policy [[1, 2, 3], [], [4]] 7 4096 2048).map (·.length) = .ok 1 := by
   decide +kernel
 example : toPackets [] true = .ok [] := by decide
+
+/-- what `OggPage.write()` produced — followed by anything — is read back by `OggPage(fileobj)` as the
+same page, field for field (packets, complete/continued/first/last flags, sequence, serial, granule
+position), leaving the rest: for every page with version 0 whose fields fit the header and which is
+`Canon` (complete, or incomplete with a last packet of 255·m bytes — the only incomplete pages
+`from_packets` builds) -/
+theorem page_parse_render (p : Page) (b rest : Bytes) (hr : p.render = .ok b) (hv : p.version = 0)
+    (hhi : p.flagsHi < 32) (hc : Canon p) : parse (b ++ rest) = .ok (p, rest) :=
+  parse_render p b rest hr hv hhi hc
+
+/-- the condition `Canon` cannot be dropped: an incomplete page whose last packet is not a multiple
+of 255 bytes long is read back as complete -/
+example : ∃ b, ({ packets := [[1, 2, 3]], complete := false } : Page).render = .ok b ∧
+    (match parse b with | .ok (q, _) => q.complete | .error _ => false) = true := by
+  refine ⟨_, rfl, ?_⟩
+  decide +kernel
 
 end Mutagen.C15
